@@ -9,6 +9,7 @@ import Gpc.Driver.Array
 import Gpc.Driver.Str
 import Gpc.Driver.CaseMap
 import Gpc.Driver.TestFw
+import Gpc.Driver.Printf
 open Gpc.Proto
 
 /-- state of the stateful models (one operation script at a time) -/
@@ -30,6 +31,7 @@ def dispatch (st : St) (toks : List String) : St × String :=
   | "map" :: rest => let (a, o) := Gpc.Driver.mapStep st.map rest; ({ st with map := a }, o)
   | "arr" :: rest => let (a, o) := Gpc.Driver.arrStep st.arr rest; ({ st with arr := a }, o)
   | "tf" :: rest => (st, Gpc.Driver.tfStep rest)
+  | "pf" :: rest => (st, Gpc.Driver.pfStep rest)
   | "case" :: rest => (st, Gpc.Driver.caseStep rest)
   | "str" :: rest => let (a, o) := Gpc.Driver.strStep st.str rest; ({ st with str := a }, o)
   | _ => (st, "bad-op")
